@@ -135,7 +135,8 @@ impl<'a> Printer<'a> {
             0 => self.out.push(' '),
             2 => self.out.push(' '),
             _ => {
-                let c = ["  ", " ", "\n", "\t", " /* c */ ", " // c\n", "\n\n"][self.rng.below(7) as usize];
+                // (comments also with non-ASCII text: their extent is counted in characters, their length in bytes)
+                let c = ["  ", " ", "\n", "\t", " /* c */ ", " // c\n", "\n\n", " // θ → φ by π (µs)\n", " /* é→ü */ ", " // ∀ε\n"][self.rng.below(10) as usize];
                 self.out.push_str(c);
             }
         }
